@@ -137,9 +137,11 @@ def oracle_case(case):
     def bad(what, expected, observed):
         return {'case': case, 'what': what, 'expected': expected, 'observed': observed}
     try:
+        G.validate(case)
         exp = G.Spec(case).expected()
-    except Exception as e:   # a case outside the grammar (hand-written replay): nothing to say
-        return bad('case is outside the grammar of the generator: %s: %s' % (type(e).__name__, e), None, None)
+    except Exception:
+        # not a case of the grammar (a shrinking step, a hand-written replay): the oracle does not judge it
+        return None
     want0 = G.coalesce(G.first_choice(exp), case['strip'])
     try:
         out = render_case(case)
@@ -154,7 +156,7 @@ def oracle_case(case):
         return None
     what = 'element structure / payload of the re-parsed output differs from the template skeleton'
     w = want0
-    shape = lambda ts: [(t[0], t[1]) for t in ts if t[0] != 'T']
+    shape = lambda ts: [tuple(t[:2]) for t in ts if t[0] != 'T']
     if shape(got) != shape(w):
         what = 'STRUCTURE CHANGED: ' + what
     else:
@@ -231,7 +233,11 @@ def shard(arg):
         key = nontrivial_key(case)
         if key:
             res.nontrivial.add(key)
-        f = oracle_case(case)
+        try:
+            G.validate(case)
+            f = oracle_case(case)
+        except Exception as e:   # the generator left its own grammar: a harness defect, never silent
+            f = {'case': case, 'what': 'generator produced a case outside its grammar: %r' % (e,), 'expected': None, 'observed': None}
         if f:
             res.failures.append(f)
             outs.append(None)
@@ -249,7 +255,7 @@ def shard(arg):
 
 def run(ctx):
     nsh = 12
-    per = ctx.n(340, 8400)
+    per = ctx.n(700, 8400)
     res = Result()
     for impl in ('c', 'py'):
         n = per if impl == 'c' else per // 3
@@ -282,8 +288,29 @@ def _oracle_in_worker(case):
     return oracle_case(case)
 
 
+_LISTED = [None]
+
+
+def listed_inputs():
+    """canonical inputs of findings/C01.json (recorded findings and repaired defects)"""
+    if _LISTED[0] is None:
+        import os
+        path = os.path.join(os.path.dirname(os.path.dirname(os.path.dirname(os.path.abspath(__file__)))), 'findings', 'C01.json')
+        with open(path) as f:
+            _LISTED[0] = set(json.dumps(e['input'], sort_keys=True) for e in json.load(f) if 'input' in e)
+    return _LISTED[0]
+
+
 def replay(ctx, case):
-    """the oracle on one canonical case, under the Markup implementation the case names"""
+    """the oracle on one canonical case, under the Markup implementation the case names.  A case that is
+    neither a listed input nor inside the stated domain (a shrinking step that wandered into the zone of a
+    recorded finding) is not judged."""
+    try:
+        G.validate(case)
+        if json.dumps(case, sort_keys=True) not in listed_inputs() and not G.in_stated_domain(case):
+            return None
+    except Exception:
+        return None
     if case.get('impl', 'c') == 'py':
         import multiprocessing
         from harness import framework
